@@ -1,5 +1,7 @@
 SPECIFICATION SSpec
 CONSTANTS
   AckWhileClosing = FALSE
-INVARIANTS AckOnlyAfterTeardown ResponseRecoverable
+  GCIgnoresSettleFails = FALSE
+  ReforwardSkipsLockedIn = FALSE
+INVARIANTS AckOnlyAfterTeardown RemovedOnlyWhenDone ResponseRecoverable NothingStranded
 CHECK_DEADLOCK FALSE
